@@ -144,6 +144,14 @@ class Det:
     def __repr__(self):
         return f"Det({self.name})"
 
+    def __hash__(self):
+        # deterministic iteration order of the bundler's `_uncollected` set / frozensets of detectors:
+        # small consecutive hashes => set order is name order (x, y, z)
+        return ord(self.name[0])
+
+    def __eq__(self, other):
+        return self is other
+
     def advance(self, n):
         self.index += n
         self.oplog.end(self.oplog.begin({"op": "advance", "obj": self.name, "n": n}))
